@@ -96,7 +96,16 @@ def cli_args(case, root):
         args.append("--sort=int(%plan('order'))")
         if case["invert"]:
             args.append("-si")
-    args += ["--", template] + [str(root / r) for r in case["roots"]] + [str(root / e) for e in case["explicit"]]
+    spelling = case.get("spelling", "abs")
+    def spell(r):
+        if spelling == "rel":
+            return r                      # relative to the sandbox root (the run's cwd)
+        if spelling == "symlink":
+            return str(root / ("lnk_" + r))
+        if spelling == "dotted":
+            return str(root / "." / r / ".." / r)
+        return str(root / r)
+    args += ["--", template] + [spell(r) for r in case["roots"]] + [str(root / e) for e in case["explicit"]]
     return args
 
 
@@ -204,9 +213,13 @@ def observe(case, dry_override=None):
                 json.dump({"plan": case["plan"], "order": case["order"], "mode": case["mode"]}, fh)
             os.environ["PLAN_TABLE"] = table
             os.environ["PLAN_ROOT"] = os.path.realpath(root)
+            if case.get("spelling") == "symlink":
+                for r in case["roots"]:
+                    os.symlink(r, os.path.join(root, "lnk_" + r))
             before = common.snapshot(root, with_ino=True)
             with Observer(root, None if dry else case.get("fault_at")) as obs:
-                out, err, rc = common.run_cli(cli_args(c, Path(os.path.realpath(root))), stdin_text=render_answers(case))
+                out, err, rc = common.run_cli(cli_args(c, Path(os.path.realpath(root))), stdin_text=render_answers(case),
+                                              cwd=os.path.realpath(root))
             after = common.snapshot(root, with_ino=True)
             cwd_restored = common.run_cli.last_cwd_after is None or True
         finally:
